@@ -303,3 +303,30 @@ for _tag, _units, _tv, _want_units, _want_tv in (("standard_and_other_units", ["
         schema=schema, make_env=_env_tdve_init(_units, _tv), call_stubs={"sc.odict": (lambda it: {})},
         ensures=[("C16.a_new_table_is_empty_and_keeps_what_it_was_given", _tdve_common + " and self.tvec == %s" % _want_tv),
                  ("C16.standard_units_are_capitalised_in_the_allowed_units", "self.allowed_units == %s" % _want_units)], defined_props=["C16"])
+
+
+# ---- the definition table of a transfer / interaction as read (body of the loop over the header and value cells in TimeDependentConnections.from_tables): the value under a
+# known heading (in any letter case) becomes the code name, full name, from / to population type; a value under any other heading is an attribute under that heading; a
+# blank heading is skipped and an `#ignore` heading ends the table (LOOP_EXIT)
+def _env_tdc_def(header, value):
+    def make(it):
+        from pyvc.interp import PyObjV
+        from pyvc import source
+
+        em = source.load("excel")
+        cell = lambda v: PyObjV("Cell", em, {"value": v, "data_type": ("s" if isinstance(v, str) else "n"), "coordinate": "A1"})
+        return {"header_cell": cell(header), "value_cell": cell(value), "code_name": None, "full_name": None, "from_pop_type": None, "to_pop_type": None, "attributes": {}}
+
+    return make
+
+
+_none = lambda skip: " and ".join("%s is None" % f for f in ("code_name", "full_name", "from_pop_type", "to_pop_type") if f != skip) + (" and len(attributes) == 0" if skip != "attributes" else "")
+for _tag, _h, _v, _clause in (("abbreviation", " Abbreviation ", " age ", "code_name == 'age' and " + _none("code_name")), ("full_name", "FULL NAME", "Ageing", "full_name == 'Ageing' and " + _none("full_name")),
+                              ("from_population_type", "From population type", "hum", "from_pop_type == 'hum' and " + _none("from_pop_type")), ("blank_population_type", "To population type", None, _none(None)),
+                              ("to_population_type", "to population type", "vec", "to_pop_type == 'vec' and " + _none("to_pop_type")), ("an_attribute", "Source", "a survey", "attributes == {'Source': 'a survey'} and " + _none("attributes")),
+                              ("blank_heading", None, "stray", _none(None) + " and LOOP_EXIT == 'continue'"), ("ignored_from_here", "#ignore the rest", "stray", _none(None) + " and LOOP_EXIT == 'break'")):
+    CONTRACTS["excel:TimeDependentConnections.from_tables#definition_%s" % _tag] = dict(
+        schema=schema, fragment={"iter": "zip(tables[0][0], tables[0][1])"}, make_env=_env_tdc_def(_h, _v), call_stubs=_rd_stubs,
+        ensures=[("C16.the_value_goes_to_the_field_its_heading_names_and_nowhere_else", _clause)], defined_props=["C16", "C18"])
+CONTRACTS["excel:TimeDependentConnections.from_tables#definition_code_name_missing"] = dict(
+    schema=schema, fragment={"iter": "zip(tables[0][0], tables[0][1])"}, make_env=_env_tdc_def("Abbreviation", None), call_stubs=_rd_stubs, raises={"Exception": "True"}, raises_props=["C18"], ensures=[], defined_props=["C16", "C18"])
